@@ -11,7 +11,7 @@ NEEDS_CLI = True
 RULE = ("op td.hash on accepted C08-style documents with exactly one violation injected at a random position (inside nested structs/arrays): "
         "every width 8..256 x the six boundary values (-2^(N-1)-1, -2^(N-1), 2^(N-1)-1, 2^(N-1), 2^N-1, 2^N) x every spelling (JSON int where it fits, "
         "float where exact, decimal string, hex string, +, negative string) for intN and uintN; bytesN lengths N-1, N, N+1; fixed array sizes +-1; declared sizes from 2^31 to beyond 2^64 with short values; "
-        "missing / extra member; undefined type (also where no value reaches it: behind empty arrays, 7 malformed/undefined names x 9 shapes); wrong JSON kind (also for the self-referencing members of recursive types, at depth 0 and deeper); a random sample of the cases is re-run through every sub-command that reaches the same code (vlib/routes.py); non-trivial = distinct document with an injected boundary value or violation; "
+        "missing / extra member; undefined type (also where no value reaches it: behind empty arrays, 7 malformed/undefined names x 9 shapes); wrong JSON kind (also for the self-referencing members of recursive types, at depth 0 and deeper); the same classes of violation inside the domain value, each through the library and through hash typeddata / --message-hash / sign typeddata; a random sample of the cases is re-run through every sub-command that reaches the same code (vlib/routes.py); non-trivial = distinct document with an injected boundary value or violation; "
         "judge = executable conformance relation of Spec.Eip712 (exact mathematical value of every literal)")
 EXHAUSTIVE_SWEEPS = {"quick": ["32 widths x 6 boundaries x {uint,int} x spellings", "bytes1..32 x {N-1,N,N+1}"],
                      "thorough": ["32 widths x 6 boundaries x {uint,int} x spellings", "bytes1..32 x {N-1,N,N+1}"]}
@@ -192,7 +192,32 @@ def gen(rng, tier):
         else:
             kind = "none"
         cases.append(Case("td.hash " + hx(tdgen.dumps(d)), tags=("structural:" + kind,)))
+    # the same violations inside the DOMAIN value (the domain is a struct value like any other), in the library and through
+    # every command that reads typed data: hash typeddata, hash typeddata --message-hash, sign typeddata
+    STD = tdgen.STD_DOMAIN
+    good = {"name": "Ether Mail", "version": "1", "chainId": 1, "verifyingContract": "0xCcCCccccCCCCcCCCCCCcCcCccCcCCCcCcccccccC", "salt": "0x" + "11" * 32}
+    bad_values = [("chainId", str(2 ** 256)), ("chainId", hex(2 ** 256)), ("chainId", Raw("-1")), ("chainId", "-1"), ("chainId", True), ("chainId", None), ("chainId", "0x"), ("chainId", [1]),
+                  ("salt", "0x" + "11" * 31), ("salt", "0x" + "11" * 33), ("salt", "11" * 32), ("salt", 5), ("version", 1), ("version", None), ("name", ["x"]), ("name", {}),
+                  ("verifyingContract", "0x" + "ab" * 19), ("verifyingContract", "0x" + "ab" * 21), ("verifyingContract", 0)]
+    dom_docs = []
+    for fld, bv in bad_values:
+        dom = dict(good)
+        dom[fld] = bv
+        dom_docs.append(("value:" + fld, dom))
+    for fld in good:
+        dom = dict(good)
+        del dom[fld]
+        dom_docs.append(("missing:" + fld, dom))
+    dom_docs.append(("extra", dict(good, extra="x")))
+    dom_docs.append(("extra", dict(good, Name="x")))
+    dom_docs.append(("control", dict(good)))
+    dcases = []
+    for tag, dom in dom_docs:
+        d = {"types": tdgen.types_json({"P": [("a", "string")]}, STD), "primaryType": "P", "domain": dom, "message": {"a": "x"}}
+        dcases.append(Case("td.hash " + hx(tdgen.dumps(d)), tags=("domain-violation", tag.split(":")[0]), meta={"token": None}))
+    cases += dcases
     from vlib import routes
+    cases += routes.add_routes(dcases, rng, 10 ** 6, "quick")
     cases += routes.add_routes(cases, rng, 80, tier)
     return cases
 
